@@ -1,4 +1,442 @@
-pub fn main(_a: &vcommon::Args) {
-    eprintln!("not yet");
-    std::process::exit(2)
+//! C50 (server part): the REAL autonat v1 `Behaviour` (with its inner request-response behaviour and
+//! REAL request-response handlers). The driver plays the Swarm and the requesters: crafted
+//! `DialRequest`s arrive as real protobuf frames on negotiated in-memory inbound streams; every
+//! `ToSwarm::Dial` the behaviour emits is recorded with its addresses; dial-backs are resolved by the
+//! schedule (success on one of the dialed addresses, or failure).
+//!
+//! Schedule: {"tp","tg","ops":[..]}: throttle_clients_peer_max / global_max (period = 1 h, i.e. the whole run);
+//!   peers 0..3, connection j (0..2) of peer p has id 2p+j and remote IP 1.2.(p+1).(j+1)
+//!   {"a":"conn","p","j"} {"a":"close","p","j"}
+//!   {"a":"req","p","j","as":"self"|"other","addrs":[[letters]..]}   letters as in filter.rs; "ip4o" = this
+//!       connection's IP, "ip4p" = the IP of the peer's other connection
+//!   {"a":"dialres","p","ok":bool,"i"}    the oldest running dial-back to p succeeds on its i-th address / fails
+use std::{collections::VecDeque, net::Ipv4Addr, time::Duration};
+
+use libp2p_autonat as autonat;
+use libp2p_core::{multiaddr::Protocol, muxing::SubstreamBox, transport::PortUse, ConnectedPoint, Endpoint, Multiaddr};
+use libp2p_identity::PeerId;
+use libp2p_swarm::{
+    behaviour::{ConnectionClosed, ConnectionEstablished, DialFailure, FromSwarm},
+    handler::{ConnectionEvent, ConnectionHandlerEvent, FullyNegotiatedInbound},
+    ConnectionHandler, ConnectionId, DialError, NetworkBehaviour, NotifyHandler, Stream, THandler, ToSwarm,
+};
+use rand::Rng;
+use vcommon::{exec::Det, json, pipe, Out, Value};
+
+const NP: usize = 3;
+const PROTO: &str = "/libp2p/autonat/1.0.0";
+
+type Hdl = THandler<autonat::Behaviour>;
+
+fn stream(det: &Det) -> (Stream, pipe::PipeCtl) {
+    let (a, b, ctl) = pipe::pipe(true);
+    let d = multistream_select::dialer_select_proto(a, vec![PROTO], multistream_select::Version::V1);
+    let l = multistream_select::listener_select_proto(SubstreamBox::new(b), vec![PROTO]);
+    let mut both = Box::pin(futures::future::join(d, l));
+    let (rd, rl) = det.run_until_stalled(both.as_mut(), 1000).expect("negotiation completes");
+    let (_, remote_io) = rd.expect("dialer");
+    let (_, io) = rl.expect("listener");
+    std::mem::forget(remote_io);
+    (libp2p_swarm::verif::stream(io), ctl)
+}
+
+fn varint(mut n: usize, out: &mut Vec<u8>) {
+    loop {
+        let b = (n & 0x7f) as u8;
+        n >>= 7;
+        if n == 0 {
+            out.push(b);
+            return;
+        }
+        out.push(b | 0x80);
+    }
+}
+
+fn field(no: u8, bytes: &[u8], out: &mut Vec<u8>) {
+    out.push((no << 3) | 2);
+    varint(bytes.len(), out);
+    out.extend_from_slice(bytes);
+}
+
+fn dial_request(peer: PeerId, addrs: &[Multiaddr]) -> Vec<u8> {
+    let mut info = vec![];
+    field(1, &peer.to_bytes(), &mut info);
+    for a in addrs {
+        field(2, &a.to_vec(), &mut info);
+    }
+    let mut dial = vec![];
+    field(1, &info, &mut dial);
+    let mut msg = vec![0x08, 0x00]; // type = DIAL
+    field(2, &dial, &mut msg);
+    let mut frame = vec![];
+    varint(msg.len(), &mut frame);
+    frame.extend_from_slice(&msg);
+    frame
+}
+
+fn ip(c: usize) -> Ipv4Addr {
+    Ipv4Addr::new(1, 2, (c / 2 + 1) as u8, (c % 2 + 1) as u8)
+}
+
+struct Conn {
+    handler: Hdl,
+    inbound: bool,
+    addr: Multiaddr,
+}
+
+struct World {
+    beh: autonat::Behaviour,
+    peers: Vec<PeerId>,
+    other: PeerId,
+    conns: Vec<Option<Conn>>, // 0..2*NP requester connections; dial-back connections are transient
+    dials: Vec<VecDeque<(ConnectionId, Vec<Multiaddr>)>>,
+    det: Det,
+    evs: Vec<Value>,
+    next_cid: usize,
+}
+
+fn cid(c: usize) -> ConnectionId {
+    ConnectionId::new_unchecked(2000 + c)
+}
+
+impl World {
+    fn pidx(&self, p: &PeerId) -> i64 {
+        self.peers.iter().position(|x| x == p).map(|i| i as i64).unwrap_or(-1)
+    }
+
+    fn n_conns(&self, p: usize) -> usize {
+        (0..2).filter(|j| self.conns[2 * p + j].is_some()).count()
+    }
+
+    /// abstract view of a dialed address relative to peer p: IP components "obs" iff equal to the IP of one of
+    /// p's currently open (requester) connections
+    fn shape(&self, a: &Multiaddr, p: usize) -> Value {
+        let obs: Vec<Ipv4Addr> = (0..2).filter(|j| self.conns[2 * p + j].is_some()).map(|j| ip(2 * p + j)).collect();
+        let mut v = vec![];
+        for c in a.iter() {
+            let (k, val) = match &c {
+                Protocol::Ip4(x) => ("ip4", if obs.contains(x) { "obs" } else { "other" }),
+                Protocol::Ip6(_) => ("ip6", "other"),
+                Protocol::Dns(_) => ("dns", "x"),
+                Protocol::Dns4(_) => ("dns4", "x"),
+                Protocol::Dns6(_) => ("dns6", "x"),
+                Protocol::Dnsaddr(_) => ("dnsaddr", "x"),
+                Protocol::Tcp(_) => ("tcp", "x"),
+                Protocol::Udp(_) => ("udp", "x"),
+                Protocol::QuicV1 => ("quic-v1", "x"),
+                Protocol::P2p(id) => ("p2p", if *id == self.peers[p] { "req" } else { "other" }),
+                Protocol::P2pCircuit => ("p2p-circuit", "x"),
+                _ => ("misc", "x"),
+            };
+            v.push(json!([k, val]));
+        }
+        Value::Array(v)
+    }
+
+    fn settle(&mut self) {
+        let det = self.det.clone();
+        for _ in 0..200 {
+            let mut progress = false;
+            loop {
+                let items = vcommon::exec::drain(&det, 64, |cx| self.beh.poll(cx));
+                if items.is_empty() {
+                    break;
+                }
+                progress = true;
+                for it in items {
+                    match it {
+                        ToSwarm::Dial { opts } => {
+                            let peer = opts.get_peer_id().expect("dial-back by peer id");
+                            let p = self.pidx(&peer);
+                            let addrs = libp2p_swarm::verif::dial_opts_addresses(&opts);
+                            if p < 0 {
+                                self.evs.push(json!({"e": "dial_unknown_peer"}));
+                                continue;
+                            }
+                            let p = p as usize;
+                            let shapes: Vec<Value> = addrs.iter().map(|a| self.shape(a, p)).collect();
+                            self.evs.push(json!({"e": "dial", "p": p, "addrs": shapes}));
+                            self.dials[p].push_back((opts.connection_id(), addrs));
+                        }
+                        ToSwarm::GenerateEvent(autonat::Event::InboundProbe(ev)) => {
+                            let v = match ev {
+                                autonat::InboundProbeEvent::Request { peer, .. } => json!({"e": "probe_req", "p": self.pidx(&peer)}),
+                                autonat::InboundProbeEvent::Response { peer, .. } => json!({"e": "probe_ok", "p": self.pidx(&peer)}),
+                                autonat::InboundProbeEvent::Error { peer, .. } => json!({"e": "probe_err", "p": self.pidx(&peer)}),
+                            };
+                            self.evs.push(v);
+                        }
+                        ToSwarm::NotifyHandler { handler: NotifyHandler::One(id), event, .. } => {
+                            if let Some(c) = (0..2 * NP).find(|c| cid(*c) == id) {
+                                if let Some(conn) = self.conns[c].as_mut() {
+                                    conn.handler.on_behaviour_event(event);
+                                }
+                            }
+                        }
+                        _ => {}
+                    }
+                }
+            }
+            for c in 0..2 * NP {
+                loop {
+                    let Some(conn) = self.conns[c].as_mut() else { break };
+                    let before = det.wakes();
+                    let mut cx = det.cx();
+                    match conn.handler.poll(&mut cx) {
+                        std::task::Poll::Ready(ConnectionHandlerEvent::NotifyBehaviour(ev)) => {
+                            progress = true;
+                            let peer = self.peers[c / 2];
+                            self.beh.on_connection_handler_event(peer, cid(c), ev);
+                        }
+                        std::task::Poll::Ready(_) => progress = true,
+                        std::task::Poll::Pending => {
+                            if det.wakes() == before {
+                                break;
+                            }
+                        }
+                    }
+                }
+            }
+            if !progress {
+                return;
+            }
+        }
+        self.evs.push(json!({"e": "driver_livelock"}));
+    }
+
+    fn op(&mut self, op: &Value) {
+        let local: Multiaddr = "/ip4/5.6.7.8/tcp/4001".parse().unwrap();
+        match vcommon::s(op, "a").as_str() {
+            "conn" => {
+                let p = vcommon::n(op, "p") as usize;
+                let c = 2 * p + vcommon::n(op, "j") as usize;
+                if self.conns[c].is_some() {
+                    return;
+                }
+                let addr: Multiaddr = format!("/ip4/{}/tcp/{}", ip(c), 6000 + c).parse().unwrap();
+                let handler = self.beh.handle_established_inbound_connection(cid(c), self.peers[p], &local, &addr).expect("never denied");
+                let other = self.n_conns(p);
+                self.conns[c] = Some(Conn { handler, inbound: true, addr: addr.clone() });
+                self.evs.push(json!({"e": "conn", "p": p, "c": c}));
+                let ep = ConnectedPoint::Listener { local_addr: local.clone(), send_back_addr: addr };
+                self.beh.on_swarm_event(FromSwarm::ConnectionEstablished(ConnectionEstablished {
+                    peer_id: self.peers[p],
+                    connection_id: cid(c),
+                    endpoint: &ep,
+                    failed_addresses: &[],
+                    other_established: other,
+                }));
+            }
+            "close" => {
+                let p = vcommon::n(op, "p") as usize;
+                let c = 2 * p + vcommon::n(op, "j") as usize;
+                let Some(conn) = self.conns[c].take() else { return };
+                debug_assert!(conn.inbound);
+                let ep = ConnectedPoint::Listener { local_addr: local.clone(), send_back_addr: conn.addr.clone() };
+                drop(conn);
+                self.evs.push(json!({"e": "close", "p": p, "c": c}));
+                self.beh.on_swarm_event(FromSwarm::ConnectionClosed(ConnectionClosed {
+                    peer_id: self.peers[p],
+                    connection_id: cid(c),
+                    endpoint: &ep,
+                    cause: None,
+                    remaining_established: self.n_conns(p),
+                }));
+            }
+            "req" => {
+                let p = vcommon::n(op, "p") as usize;
+                let j = vcommon::n(op, "j") as usize;
+                let c = 2 * p + j;
+                if self.conns[c].is_none() {
+                    return;
+                }
+                let claimed = if vcommon::s(op, "as") == "self" { self.peers[p] } else { self.other };
+                let mut addrs = vec![];
+                for l in op["addrs"].as_array().unwrap() {
+                    let mut a = Multiaddr::empty();
+                    for x in l.as_array().unwrap() {
+                        let x = x.as_str().unwrap();
+                        let comp = match x {
+                            "ip4o" => Protocol::Ip4(ip(c)),
+                            "ip4p" => Protocol::Ip4(ip(c ^ 1)),
+                            _ => crate::filter::comp(x, self.peers[p], self.other),
+                        };
+                        a.push(comp);
+                    }
+                    addrs.push(a);
+                }
+                let frame = dial_request(claimed, &addrs);
+                let det = self.det.clone();
+                let (s, ctl) = stream(&det);
+                ctl.inject(0, &frame);
+                self.evs.push(json!({"e": "req", "p": p, "c": c, "n": addrs.len()}));
+                let conn = self.conns[c].as_mut().unwrap();
+                conn.handler.on_connection_event(ConnectionEvent::FullyNegotiatedInbound(FullyNegotiatedInbound {
+                    protocol: (s, libp2p_swarm::StreamProtocol::new(PROTO)),
+                    info: (),
+                }));
+                std::mem::forget(ctl);
+            }
+            "dialres" => {
+                let p = vcommon::n(op, "p") as usize;
+                let Some((dial_id, addrs)) = self.dials[p].pop_front() else { return };
+                let ok = vcommon::b(op, "ok");
+                self.evs.push(json!({"e": "dialres", "p": p, "ok": ok}));
+                if ok && !addrs.is_empty() {
+                    let i = vcommon::n(op, "i") as usize % addrs.len();
+                    let addr = addrs[i].clone();
+                    // the dial-back connection: established, reported, and closed again right away
+                    self.next_cid += 1;
+                    let id = dial_id;
+                    let h = self.beh.handle_established_outbound_connection(id, self.peers[p], &addr, Endpoint::Dialer, PortUse::New).expect("never denied");
+                    let ep = ConnectedPoint::Dialer { address: addr.clone(), role_override: Endpoint::Dialer, port_use: PortUse::New };
+                    let others = self.n_conns(p);
+                    self.beh.on_swarm_event(FromSwarm::ConnectionEstablished(ConnectionEstablished {
+                        peer_id: self.peers[p],
+                        connection_id: id,
+                        endpoint: &ep,
+                        failed_addresses: &[],
+                        other_established: others,
+                    }));
+                    self.settle();
+                    drop(h);
+                    self.beh.on_swarm_event(FromSwarm::ConnectionClosed(ConnectionClosed {
+                        peer_id: self.peers[p],
+                        connection_id: id,
+                        endpoint: &ep,
+                        cause: None,
+                        remaining_established: others,
+                    }));
+                } else {
+                    let err = DialError::Transport(vec![]);
+                    self.beh.on_swarm_event(FromSwarm::DialFailure(DialFailure { peer_id: Some(self.peers[p]), error: &err, connection_id: dial_id }));
+                }
+            }
+            x => panic!("op {x}"),
+        }
+        self.settle();
+    }
+}
+
+fn run(out: &mut Out, sched: &Value, peers: &[PeerId], other: PeerId, local: PeerId) {
+    let tp = vcommon::n(sched, "tp") as usize;
+    let tg = vcommon::n(sched, "tg") as usize;
+    out.reset_with(json!({"tp": tp, "tg": tg}), sched);
+    let cfg = autonat::Config {
+        boot_delay: Duration::from_secs(3600),
+        retry_interval: Duration::from_secs(3600),
+        refresh_interval: Duration::from_secs(3600),
+        throttle_clients_period: Duration::from_secs(3600),
+        throttle_clients_peer_max: tp,
+        throttle_clients_global_max: tg,
+        only_global_ips: false,
+        max_peer_addresses: 4,
+        timeout: Duration::from_secs(600),
+        ..Default::default()
+    };
+    let mut w = World {
+        beh: autonat::Behaviour::new(local, cfg),
+        peers: peers.to_vec(),
+        other,
+        conns: (0..2 * NP).map(|_| None).collect(),
+        dials: vec![VecDeque::new(); NP],
+        det: Det::new(),
+        evs: vec![],
+        next_cid: 0,
+    };
+    for op in sched["ops"].as_array().unwrap() {
+        let r = vcommon::guard(|| w.op(op));
+        for e in w.evs.drain(..) {
+            out.ev(e);
+        }
+        if let Err(m) = r {
+            out.ev(json!({"e": "panic", "msg": m}));
+            break;
+        }
+    }
+}
+
+const LETTERS: [&str; 12] = ["ip4o", "ip4p", "ip4x", "ip6x", "dns4", "tcp", "udp", "quic", "p2pr", "p2px", "circ", "ip4y"];
+
+fn random_sched(rng: &mut impl Rng, races: bool) -> Value {
+    let tp = rng.gen_range(1..=3);
+    let tg = rng.gen_range(1..=5);
+    let mut ops = vec![];
+    for p in 0..NP {
+        for j in 0..2 {
+            if rng.gen_bool(0.7) {
+                ops.push(json!({"a": "conn", "p": p, "j": j}));
+            }
+        }
+    }
+    let len = rng.gen_range(4..=30);
+    for _ in 0..len {
+        let x = rng.gen_range(0..100);
+        let p = rng.gen_range(0..NP);
+        let j = rng.gen_range(0..2);
+        let op = if x < 50 {
+            let na = rng.gen_range(1..=3);
+            let mut addrs = vec![];
+            for _ in 0..na {
+                let mut l: Vec<&str> = vec![];
+                if rng.gen_bool(0.8) {
+                    l.push(["ip4o", "ip4x", "ip4p", "ip6x"][rng.gen_range(0..4)]);
+                    l.push(["tcp", "udp"][rng.gen_range(0..2)]);
+                }
+                for _ in 0..rng.gen_range(0..4) {
+                    if rng.gen_bool(0.4) {
+                        l.push(LETTERS[rng.gen_range(0..LETTERS.len())]);
+                    }
+                }
+                if l.is_empty() {
+                    l.push("tcp");
+                }
+                addrs.push(l);
+            }
+            json!({"a": "req", "p": p, "j": j, "as": if rng.gen_bool(0.9) { "self" } else { "other" }, "addrs": addrs})
+        } else if x < 85 {
+            json!({"a": "dialres", "p": p, "ok": rng.gen_bool(0.5), "i": rng.gen_range(0..4)})
+        } else if x < 92 {
+            if races { json!({"a": "close", "p": p, "j": j}) } else { json!({"a": "dialres", "p": p, "ok": false, "i": 0}) }
+        } else {
+            json!({"a": "conn", "p": p, "j": j})
+        };
+        ops.push(op);
+    }
+    json!({"tp": tp, "tg": tg, "ops": ops})
+}
+
+pub fn main(a: &vcommon::Args) {
+    vcommon::quiet_panics();
+    let peers: Vec<PeerId> = (0..NP).map(|_| PeerId::random()).collect();
+    let other = PeerId::random();
+    let local = PeerId::random();
+    match a.get(0) {
+        "replay" => {
+            let scheds = vcommon::read_schedules(a.get(1));
+            let mut out = Out::create(a.get(2));
+            for s in &scheds {
+                run(&mut out, s, &peers, other, local);
+            }
+            println!("runs={} events={}", out.run, out.events);
+            out.finish();
+        }
+        "random" => {
+            let seed = a.num(1);
+            let runs = a.num(2);
+            let races = a.kv_num("races", 1) == 1;
+            let mut out = Out::create(a.get(3));
+            let mut rng = vcommon::rng(seed.wrapping_mul(7919).wrapping_add(5050));
+            for _ in 0..runs {
+                let s = random_sched(&mut rng, races);
+                run(&mut out, &s, &peers, other, local);
+            }
+            println!("runs={} events={}", out.run, out.events);
+            out.finish();
+        }
+        m => {
+            eprintln!("unknown sub-mode {m}");
+            std::process::exit(2)
+        }
+    }
 }
